@@ -24,8 +24,9 @@ LEVEL_NOTE = ("Trusted: Coq kernel incl. vm_compute, extraction (ExtrOcamlBasic 
               "driver's oracle). The block cipher is abstract (16-byte outputs); C05 supplies SM4. The helpers do not compare tags themselves: "
               "what is proved is what the returned tag is and the equation Delta.H^(k+1) = 0 for single-block differences; that this product is "
               "non-zero (no zero divisors: irreducibility of the GCM polynomial) is not proved, and differences in the IV or spread over several "
-              "blocks are only exercised by the single-bit flips of the run. Caller memory (IV/A/P with spare capacity) "
-              "is checked by canaries in the run only.")
+              "blocks are only exercised by the single-bit flips of the run. Caller memory: the appends of GetY0 and GHASH are modelled on a heap of arrays with Go's in-place "
+              "append and proved not to touch any array of the caller (C12_caller_memory_untouched); index assignments and copies, whose "
+              "destinations are all made inside the functions, are modelled on values; the run checks canaries behind K, IV, A, P, C.")
 TRUSTED_BASE = [
     "specification coq/SM4/GCMSpec.v transcribed by hand from NIST SP 800-38D; validated by RFC 8998 A.1 (SM4-GCM) as an Example",
     "model coq/SM4/GCMModel.v written by hand from sm4/sm4_gcm.go; tied by the correspondence run of this check",
@@ -36,6 +37,7 @@ TRUSTED_BASE = [
 ASSUMPTIONS = [
     "keys of 16 bytes (other lengths: Sm4GCM errs, proved; GCMEncrypt/GCMDecrypt/GetH panic, modelled); byte strings are lists of N < 256",
     "`X := make(...)` plus copy into window i is modelled by the list of windows; Go int is wide enough for all lengths (64 bit)",
+    "caller memory: a heap of arrays with slice headers (array, offset, len, cap) and Go's make/copy/append semantics, used for the append sites",
     "the theorem about tag inequality is the equivalence with GHASH inequality; no irreducibility / collision-probability claim is made",
 ]
 RULE = ("seeded generator (VERIF_SEED): RFC 8998 A.1; IV lengths 1..64 (random / all-ff / half-ff) x 2 (thorough 12) messages; |A|,|P| in 0..80 at IV "
